@@ -150,6 +150,7 @@ type Machine struct {
 	lastSnapDiff  string
 	panicMsg      string
 	kvConflicts    int
+	reflCalls      int
 	wsConns        []*wsConn
 	urlReg         map[*Term]*urlParts
 	urlOut         []urlOutRec
